@@ -1,5 +1,5 @@
 """C18 -- a truncated GDSII file is never read as complete and never crashes a reader."""
-LEVEL = 'proof'
+LEVEL = 'model_checking'
 HDR = ['spec/tape.h', 'spec/ghost.h', 'spec/oasis_spec.h', 'spec/gds_spec.h']
 STDIO = ['fread', 'fputs', 'feof', 'ferror']
 
@@ -32,14 +32,13 @@ GROUPS = [
       replace=['gdsii_read_record', 'big_endian_swap16/big_endian_swap16_small'],
       replace_extern=['fopen', 'fclose', 'fputs'], defines={'VF_TAPE_MAX': 4096},
       bound='read-only mode; record loop closed by a loop contract; file length up to 4096 bytes'),
-    G('read_rawcells', tu='src/rawcell.cpp', roots=['gdstk::read_rawcells'], entry='h_read_rawcells', enforce='read_rawcells',
-      replace=['gdsii_read_record'], replace_extern=['fopen', 'fclose', 'fputs', 'ftell'],
-      defines={'VF_TAPE_MAX': 16}, unwind=6, kind='bounded', timeout=2400, tier='thorough',
-      bound='file length up to 16 bytes (up to 4 records), every byte arbitrary; all loops unwound 6 times with unwinding assertions'),
+    # read_rawcells (src/rawcell.cpp): bounded harness (files <= 16 bytes) did not leave CBMC within 40 min
+    # (Map<RawCell*> with string keys inlined); NOT claimed -- see DESIGN.md.  Its contract stays in contracts/gds_readers.ct.
 ]
 TRUSTED_BASE = ['clang 14 AST', 'tools/cxx2c.py lowering', 'cbmc 6.11.0 (dfcc + SAT)', 'side-car contracts']
 ASSUMPTIONS = [
+    'not covered: read_gds (full loader), read_rawcells, gds_info, gds_timestamp in rewrite mode, the signature arithmetic of oas_validate (crc32/checksum32 are uninterpreted)',
     'stdio behaves as the assumed contracts in models/stdio_contracts.h (regular file: short reads only at end of file; one input file; fopen may fail)',
     'error_logger is NULL (logging through fprintf is not modelled)',
 ]
-EXPLANATION = ''
+EXPLANATION = 'contract proofs of the GDSII record reader and of the light-weight GDSII/OASIS queries on an arbitrary byte tape (every prefix of every file)'
